@@ -8,7 +8,7 @@ from . import pcommon as pc
 def run(tier):
     ck = C.Check("C03", tier)
     failed = ck.proofs()
-    n_g, n_r = (45, 14) if tier == "quick" else (700, 30)
+    n_g, n_r = (45, 14) if tier == "quick" else (400, 24)
     res = P.run_family(ck, n_g, n_r, p_err=0.3, want_hist=True)
     ties = pc.tie_violations(ck, res, want_kinds=("parse", "fail"))
     st = {"results_checked": 0, "failing_action_runs": 0, "with_actions": 0, "shapes": {}}
